@@ -73,6 +73,8 @@ type recorder struct {
 	closedInBatch map[int]bool // ... and closed by the framework since that batch was fetched
 	userFds       []int        // descriptors handed to the user by Conn.Dup: the framework must never touch them
 	injectedAcc   []string     // faults injected into the main reactor's accept4 calls
+	acceptFatal   bool         // a fatal accept error was injected: the engine is expected to shut down
+	shutdownAsked bool         // a callback returned Shutdown: the engine is expected to stop
 	fdCid         map[int]int  // fd -> gid
 	gidM          map[int]int  // gid -> mcid
 	nloops        int
@@ -445,6 +447,9 @@ func (r *recorder) maybeInject(c *vunix.Call, name string) {
 			c.Skip = true
 			c.Ret = -1
 			c.Err = errnoOf(in.kind)
+		}
+		if name == "accept" && in.kind != "eintr" && in.kind != "econnaborted" && in.kind != "econnreset" && in.kind != "eagain" {
+			r.acceptFatal = true
 		}
 		transient := in.kind == "eagain" || in.kind == "eintr"
 		if !transient {
